@@ -176,3 +176,121 @@ pub fn stub_read_u16_into_le(src: &[u8], dst: &mut [u16]) {
         i += 1;
     }
 }
+
+const W1252_HIGH: [u16; 32] = [
+    0x20AC, 0x0081, 0x201A, 0x0192, 0x201E, 0x2026, 0x2020, 0x2021, 0x02C6, 0x2030, 0x0160, 0x2039, 0x0152, 0x008D,
+    0x017D, 0x008F, 0x0090, 0x2018, 0x2019, 0x201C, 0x201D, 0x2022, 0x2013, 0x2014, 0x02DC, 0x2122, 0x0161, 0x203A,
+    0x0153, 0x009D, 0x017E, 0x0178,
+];
+
+fn push_char(out: &mut String, c: u32) {
+    match char::from_u32(c) {
+        Some(ch) => out.push(ch),
+        None => out.push('\u{FFFD}'),
+    }
+}
+
+/// Stub for `encoding_rs::Encoding::decode` (BOM sniffing, then windows-1252 /
+/// UTF-16LE / UTF-16BE / UTF-8 with U+FFFD replacement): encoding_rs uses
+/// inline assembly and table-driven fast paths that Kani cannot encode. Only the
+/// encodings gamedig uses are modelled; validated natively against encoding_rs
+/// (tests/validate.rs).
+pub fn stub_encoding_decode<'a>(
+    this: &'static encoding_rs::Encoding,
+    bytes: &'a [u8],
+) -> (std::borrow::Cow<'a, str>, &'static encoding_rs::Encoding, bool) {
+    let (enc, body): (&'static encoding_rs::Encoding, &[u8]) =
+        if bytes.len() >= 3 && bytes[0] == 0xEF && bytes[1] == 0xBB && bytes[2] == 0xBF {
+            (encoding_rs::UTF_8, &bytes[3 ..])
+        } else if bytes.len() >= 2 && bytes[0] == 0xFF && bytes[1] == 0xFE {
+            (encoding_rs::UTF_16LE, &bytes[2 ..])
+        } else if bytes.len() >= 2 && bytes[0] == 0xFE && bytes[1] == 0xFF {
+            (encoding_rs::UTF_16BE, &bytes[2 ..])
+        } else {
+            (this, bytes)
+        };
+    let mut out = String::with_capacity(4 * 64);
+    let mut errors = false;
+    if enc == encoding_rs::WINDOWS_1252 {
+        let mut i = 0;
+        while i < body.len() {
+            let b = body[i];
+            let c = if b >= 0x80 && b < 0xA0 { W1252_HIGH[(b - 0x80) as usize] as u32 } else { b as u32 };
+            push_char(&mut out, c);
+            i += 1;
+        }
+    } else if enc == encoding_rs::UTF_16LE || enc == encoding_rs::UTF_16BE {
+        let le = enc == encoding_rs::UTF_16LE;
+        let mut i = 0;
+        while i + 1 < body.len() {
+            let u = if le { (body[i + 1] as u32) << 8 | body[i] as u32 } else { (body[i] as u32) << 8 | body[i + 1] as u32 };
+            i += 2;
+            if u >= 0xD800 && u <= 0xDBFF {
+                if i + 1 < body.len() {
+                    let v = if le {
+                        (body[i + 1] as u32) << 8 | body[i] as u32
+                    } else {
+                        (body[i] as u32) << 8 | body[i + 1] as u32
+                    };
+                    if v >= 0xDC00 && v <= 0xDFFF {
+                        i += 2;
+                        push_char(&mut out, 0x10000 + ((u - 0xD800) << 10) + (v - 0xDC00));
+                        continue;
+                    }
+                }
+                errors = true;
+                out.push('\u{FFFD}');
+                if i + 1 >= body.len() {
+                    // end of stream with a pending lead surrogate (and possibly a
+                    // pending lead byte): one error for all of it
+                    i = body.len();
+                }
+            } else if u >= 0xDC00 && u <= 0xDFFF {
+                errors = true;
+                out.push('\u{FFFD}');
+            } else {
+                push_char(&mut out, u);
+            }
+        }
+        if i < body.len() {
+            // dangling odd byte
+            errors = true;
+            out.push('\u{FFFD}');
+        }
+    } else {
+        let s = String::from_utf8_lossy(body);
+        errors = matches!(s, std::borrow::Cow::Owned(_));
+        out.push_str(&s);
+    }
+    (std::borrow::Cow::Owned(out), enc, errors)
+}
+
+/// Byte-level builder used by the reference encoders.
+pub struct Enc {
+    pub v: Vec<u8>,
+}
+impl Enc {
+    pub fn new() -> Self { Enc { v: Vec::with_capacity(128) } }
+    pub fn u8(&mut self, x: u8) -> &mut Self {
+        self.v.push(x);
+        self
+    }
+    pub fn bytes(&mut self, b: &[u8]) -> &mut Self {
+        let mut i = 0;
+        while i < b.len() {
+            self.v.push(b[i]);
+            i += 1;
+        }
+        self
+    }
+    pub fn le16(&mut self, x: u16) -> &mut Self { self.bytes(&x.to_le_bytes()) }
+    pub fn le32(&mut self, x: u32) -> &mut Self { self.bytes(&x.to_le_bytes()) }
+    pub fn le64(&mut self, x: u64) -> &mut Self { self.bytes(&x.to_le_bytes()) }
+    pub fn be16(&mut self, x: u16) -> &mut Self { self.bytes(&x.to_be_bytes()) }
+    pub fn be32(&mut self, x: u32) -> &mut Self { self.bytes(&x.to_be_bytes()) }
+    pub fn cstr(&mut self, s: &str) -> &mut Self {
+        self.bytes(s.as_bytes());
+        self.u8(0)
+    }
+}
+
